@@ -13,7 +13,7 @@ func init() {
 	register(&PropMeta{
 		ID:          "C15",
 		Level:       "other",
-		Explanation: "Decides the closed set and value shape of deadline writers: the deadline field is stored only as Unix(Now + ActionTime seconds) (turn), 0 (round-close hook and between hands) or Unix(Unix(old) + duration seconds) (extension, which returns exactly the stored value); the address never escapes. Wiring: the clearing hook is registered with the hand before it is started, the hand stores and invokes it in its round-closed handler before asking for the next step, and the between-hands reset stores 0 on every path. NOT decided: the predicate that decides when a turn publishes a deadline.",
+		Explanation: "Decides the closed set and value shape of deadline writers: the deadline field is stored only as Unix(Now + ActionTime seconds) (turn), 0 (round-close hook and between hands) or Unix(Unix(old) + duration seconds) (extension, which returns exactly the stored value); the address never escapes. Wiring: the clearing hook is registered with the hand before it is started, the hand stores and invokes it in its round-closed handler before asking for the next step, and the between-hands reset stores 0 on every path. (R3) the turn deadline is stored only under status playing ∧ round-started event ∧ betting round ∧ the current player has allowed actions ∧ has not acted; (R4) the engine's hand-state hook hands every state and its event to the deadline updater, unconditionally, for every event but game-closed. NOT decided: that pokerface raises a round-started event for every turn (its Acted flag and event sequence are trusted).",
 		Rules: map[string]string{
 			"R1": "closed writer set and value shapes of TableState.CurrentActionEndAt; extension returns the stored value; no address escape",
 			"R2": "clear wiring: hook registered before Start; hand stores it; round-closed handler invokes it before Next; continue step resets to 0 on every path",
